@@ -244,3 +244,35 @@ def run(ctx):
                         found = True
     ctx.ob("F5.TRUNK-REUSABLE", a.id, found, "allocate can hand out the (emptied) head trunk page" if found else
            "a page that became a trunk is counted in free_count but no path of allocate ever returns it", a.loc())
+    trunk_init(ctx)
+
+
+def trunk_init(ctx):
+    """F6 TRUNK-INIT: a page that becomes the head trunk is a recycled page with arbitrary old contents; the two functions that
+    install a new head trunk (they store to Freelist.head_page from their page_no argument) must both write a fresh page header
+    and a fresh TrunkHeader (new + write_to).  Patching single fields of whatever the page held keeps a stale entry count: pages
+    that were never released are handed out, or pages are handed out twice."""
+    m = ctx.m
+    need = ("PageHeader::new", "PageHeader::write_to", "TrunkHeader::new", "TrunkHeader::write_to")
+    n = 0
+    for f in sorted(m.fns.values(), key=lambda f: f.id):
+        if not f.id.startswith("storage::freelist::Freelist::") or f.kind == "closure":
+            continue
+        installs = False
+        for b in f.blocks:
+            for s in b["s"]:
+                if s[0] == "=" and s[1][1] and any(x.endswith("Freelist::head_page") for x in place_fields(s[1])) and s[2][0] == "use":
+                    q = operand_place(s[2][1])
+                    if q is not None and not q[1]:
+                        k, p, _ = f.origin(q[0])
+                        if (k == "arg") or (1 <= q[0] <= f.nargs):
+                            installs = True
+        names = {c.name for c in f.calls}
+        if not installs or not any(nm.endswith("::page_mut") for nm in names):
+            continue   # a plain setter (set_head loads the persisted head) installs nothing
+        n += 1
+        missing = [x for x in need if not any(nm.endswith(x) for nm in names)]
+        ctx.ob("F6.TRUNK-INIT", f.id.rsplit("::", 1)[-1], not missing, "fresh page header and fresh TrunkHeader are written" if not missing else
+               "%s installs a recycled page as head trunk without %s: the trunk keeps the entry count and entries of the page's previous "
+               "life" % (f.id.rsplit("::", 1)[-1], missing), f.loc())
+    ctx.floor("F6.trunk_installers", n, 2)
